@@ -155,6 +155,7 @@ type RunOut struct {
 	Skipped     string           `json:"skipped,omitempty"`
 	Counters    map[string]int   `json:"counters,omitempty"`
 	hist        *contHistory
+	cacheHist   []CRec
 }
 
 // poster is implemented by workloads whose oracles need work outside the bubble
